@@ -51,7 +51,7 @@ var max256 = new(big.Int).Sub(bigPow2(256), big.NewInt(1))
 func c08Jobs(tier string) []Job {
 	limits := []string{"", "0", "1000"}
 	bodies := []uint64{131, 132, 8000}
-	denoms := []string{"uusdc"}
+	denoms := []string{"uusdc", "uUSDC"}
 	envs := []int{0, 1}
 	if tier == "thorough" {
 		limits = []string{"", "0", "1", "1000", max256.String()}
